@@ -4,6 +4,7 @@ package load
 import (
 	"fmt"
 	"go/token"
+	"go/types"
 	"os"
 	"sort"
 
@@ -119,7 +120,43 @@ func Load(c Config) (*Program, error) {
 		}
 		return a.String() < b.String()
 	})
+	for _, fn := range p.Funcs {
+		canonicalise(fn)
+	}
 	return p, nil
+}
+
+// canonicalise puts the constant operand of a comparison or of a commutative
+// arithmetic operation on the right (`4 == len(b)` becomes `len(b) == 4`,
+// `1 + n` becomes `n + 1`), so that the rules read one spelling. Constants
+// have no referrer lists, so swapping the operands in place keeps the
+// function's def-use information intact.
+func canonicalise(fn *ssa.Function) {
+	mirror := map[token.Token]token.Token{token.EQL: token.EQL, token.NEQ: token.NEQ, token.LSS: token.GTR, token.GTR: token.LSS, token.LEQ: token.GEQ, token.GEQ: token.LEQ}
+	for _, b := range fn.Blocks {
+		for _, ins := range b.Instrs {
+			bo, ok := ins.(*ssa.BinOp)
+			if !ok {
+				continue
+			}
+			if _, xc := bo.X.(*ssa.Const); !xc {
+				continue
+			}
+			if _, yc := bo.Y.(*ssa.Const); yc {
+				continue
+			}
+			if m, isCmp := mirror[bo.Op]; isCmp {
+				bo.X, bo.Y, bo.Op = bo.Y, bo.X, m
+				continue
+			}
+			switch bo.Op {
+			case token.ADD, token.MUL, token.AND, token.OR, token.XOR:
+				if bt, isBasic := bo.X.Type().Underlying().(*types.Basic); isBasic && bt.Info()&types.IsNumeric != 0 {
+					bo.X, bo.Y = bo.Y, bo.X
+				}
+			}
+		}
+	}
 }
 
 // Pos renders a position relative to the repo root.
